@@ -7,8 +7,10 @@ import (
 	"fmt"
 	"io"
 	"os"
+	"sync"
 	"syscall"
 	"testing"
+	"time"
 
 	libaudit "github.com/elastic/go-libaudit/v2"
 	"pgregory.net/rapid"
@@ -459,5 +461,53 @@ func TestC16Constants(t *testing.T) {
 				hC16.Fail(t, "TestC16", c, "%v", err)
 			}
 		}
+	}
+}
+
+// TestC16Concurrent: several clients at once, each in its own goroutine with its own simulated kernel and its
+// own status values: a client's GetStatus shows what its kernel sent, its setters send what was asked, whatever
+// the other clients are doing (the properties of the single-client cases, with unrelated traffic next door).
+func TestC16Concurrent(t *testing.T) {
+	rounds := hx.EnvInt("VERIF_N", 200)
+	gen := rapid.Custom(func(rt *rapid.T) C16Case { return genC16(rt) })
+	for r := 0; r < rounds; r++ {
+		const G = 6
+		cases := make([][]C16Case, G)
+		for g := range cases {
+			for i := 0; i < 30; i++ {
+				c := gen.Example(int(hx.Seed())*1000003 + (r*G+g)*30 + i)
+				if c.Kind == "many" || c.Kind == "seq" {
+					c = C16Case{Kind: "get", Buf: bytes.Repeat([]byte{byte(16*g + i)}, 44)}
+				}
+				cases[g] = append(cases[g], c)
+			}
+		}
+		hC16.BeginLimit("TestC16", cases[0][0], 120*time.Second)
+		errs := make([]error, G)
+		bad := make([]C16Case, G)
+		var wg sync.WaitGroup
+		start := make(chan struct{})
+		for g := 0; g < G; g++ {
+			wg.Add(1)
+			go func(g int) {
+				defer wg.Done()
+				<-start
+				for _, c := range cases[g] {
+					if err := hx.Guard(propC16, c); err != nil && errs[g] == nil {
+						errs[g], bad[g] = err, c
+					}
+				}
+			}(g)
+		}
+		close(start)
+		wg.Wait()
+		hC16.End()
+		for g := range errs {
+			hC16.Eval()
+			if errs[g] != nil {
+				hC16.Fail(t, "TestC16", bad[g], "while five other clients were busy in other goroutines: %v", errs[g])
+			}
+		}
+		hC16.Class("concurrent-clients-round")
 	}
 }
